@@ -153,7 +153,8 @@ def generate(rng, tier="quick"):
             cfg["base_mode"] = actors[0]["cfg"]["base_mode"]
             cfg["share_format_checker"] = rng.random() < 0.5
         actors.append({"world": windex[i], "cfg": cfg, "program": gen_program(rng, base, sites, faulty, tier),
-                       "share_root_with": 0 if i in shared else None})
+                       "share_root_with": 0 if i in shared else None,
+                       "store_from": (rng.randrange(i) if (i > 0 and i not in shared and rng.random() < 0.2) else None)})
     if mode == "coop":
         bias = rng.choice(["uniform", "runs", "alternate"])
         length = rng.randint(10, 60)
@@ -300,7 +301,9 @@ def build_actors(scn, router):
         world = scn["worlds"][spec["world"]]
         j = spec.get("share_root_with")
         src = actors[j] if (j is not None and j < i) else None
-        actors.append(Actor(world, spec["cfg"], router, shared_from=src))
+        sj = spec.get("store_from")
+        donor = actors[sj] if (sj is not None and sj < i and src is None) else None
+        actors.append(Actor(world, spec["cfg"], router, shared_from=src, store_from=donor))
     return actors
 
 
@@ -496,9 +499,19 @@ def exec_alone(arg):
     one = copy.deepcopy(scn)
     spec = one["actors"][i]
     spec["share_root_with"] = None
-    one["actors"] = [spec]
+    sj = spec.get("store_from")
+    if sj is not None and sj < i:
+        # the donor of the store object is constructed (never operated), exactly as in the interleaved run
+        donor = one["actors"][sj]
+        donor["share_root_with"] = None
+        donor["store_from"] = None
+        spec["store_from"] = 0
+        one["actors"] = [donor, spec]
+    else:
+        spec["store_from"] = None
+        one["actors"] = [spec]
     actors = build_actors(one, router)
-    st = Stepper(actors[0], spec["program"], scn["worlds"][0]["instances"], scn.get("share_instances", False))
+    st = Stepper(actors[-1], spec["program"], scn["worlds"][0]["instances"], scn.get("share_instances", False))
     lines = 0
     hist = {}
     if scn["schedule"]["mode"] == "preempt":
@@ -770,13 +783,15 @@ def shrink(scn):
     # fewer actors (keep >= 2), fewer ops
     if len(scn["actors"]) > 2:
         for i in range(len(scn["actors"]) - 1, -1, -1):
-            if any(a.get("share_root_with") == i for a in scn["actors"]):
+            if any(a.get("share_root_with") == i or a.get("store_from") == i for a in scn["actors"]):
                 continue
             c = copy.deepcopy(scn)
             del c["actors"][i]
             for a in c["actors"]:
                 if a.get("share_root_with") is not None and a["share_root_with"] > i:
                     a["share_root_with"] -= 1
+                if a.get("store_from") is not None and a["store_from"] > i:
+                    a["store_from"] -= 1
             if c["schedule"]["mode"] == "coop":
                 c["schedule"]["order"] = [x if x < i else x - 1 for x in c["schedule"]["order"] if x != i]
             else:
